@@ -294,12 +294,25 @@ class ASTRewriter(ast.NodeTransformer):
         return node
 
     def visit_FunctionDef(self, node):
+        # a function defined inside another one has formals and a return type of its own: what is
+        # known about the enclosing function's variables must survive it
+        nested = getattr(self, "_in_function", False)
+        if nested:
+            outer = (dict(self.env.types), dict(self.env.constants), self.ret)
+        self._in_function = True
+
         for x in node.args.args:
             self.env.set_type(x.arg, x.annotation)
 
         self.ret = node.returns
 
-        return super().generic_visit(node)
+        res = super().generic_visit(node)
+
+        if nested:
+            self.env.types, self.env.constants, self.ret = outer
+        else:
+            self._in_function = False
+        return res
 
     def visit_Assign(self, node):
         target = node.targets[0].id
